@@ -2,6 +2,8 @@ package c08
 
 import (
 	"fmt"
+
+	"verif/harness/lib/ev"
 	"sort"
 	"strings"
 )
@@ -17,7 +19,9 @@ type fa[T any] struct {
 type space[T any] struct {
 	typ    string
 	fields []fa[T]
-	pairs  [][]int // cached: base + all 1- and 2-field deviations
+	cache  map[int][][]int // cached deviation sets
+	// subs optionally names the sub-field a choice of a composite field deviates in
+	subs map[string]func(i int) string
 }
 
 func (s *space[T]) build(idx []int) *T {
@@ -39,48 +43,63 @@ func (s *space[T]) fullSize() int {
 	return n
 }
 
-// pairVectors returns base, every single-field deviation and every two-field
-// deviation: together they contain every pair of field values.
-func (s *space[T]) pairVectors() [][]int {
-	if s.pairs != nil {
-		return s.pairs
+// quickDev is the number of fields that deviate from the base value at once
+// in the quick tier: 3 covers every triple of field values.
+const quickDev = 3
+
+// devK: thorough uses 4-field deviations for the spaces whose full product is not affordable.
+func devK() int {
+	if ev.Thorough() {
+		return 4
+	}
+	return quickDev
+}
+
+// devs returns base and every deviation of at most k fields from it (all
+// non-base choices of those fields): it contains every k-tuple of field values.
+func (s *space[T]) devs(k int) [][]int {
+	if s.cache == nil {
+		s.cache = map[int][][]int{}
+	}
+	if v, ok := s.cache[k]; ok {
+		return v
 	}
 	nf := len(s.fields)
 	var out [][]int
-	out = append(out, make([]int, nf))
-	for i := 0; i < nf; i++ {
-		for a := 1; a < s.fields[i].n; a++ {
-			v := make([]int, nf)
-			v[i] = a
-			out = append(out, v)
+	cur := make([]int, nf)
+	var rec func(from, left int)
+	rec = func(from, left int) {
+		out = append(out, append([]int{}, cur...))
+		if left == 0 {
+			return
 		}
-	}
-	for i := 0; i < nf; i++ {
-		for j := i + 1; j < nf; j++ {
+		for i := from; i < nf; i++ {
 			for a := 1; a < s.fields[i].n; a++ {
-				for b := 1; b < s.fields[j].n; b++ {
-					v := make([]int, nf)
-					v[i], v[j] = a, b
-					out = append(out, v)
-				}
+				cur[i] = a
+				rec(i+1, left-1)
 			}
+			cur[i] = 0
 		}
 	}
-	s.pairs = out
+	rec(0, k)
+	s.cache[k] = out
 	return out
 }
+
+// pairVectors: base + all 1- and 2-field deviations.
+func (s *space[T]) pairVectors() [][]int { return s.devs(2) }
 
 // count/at give the enumeration in the requested mode.
 func (s *space[T]) count(full bool) int {
 	if full {
 		return s.fullSize()
 	}
-	return len(s.pairVectors())
+	return len(s.devs(devK()))
 }
 
 func (s *space[T]) at(full bool, i int) []int {
 	if !full {
-		return s.pairVectors()[i]
+		return s.devs(devK())[i]
 	}
 	idx := make([]int, len(s.fields))
 	for k := len(s.fields) - 1; k >= 0; k-- {
@@ -133,6 +152,8 @@ type codecT[T any] struct {
 	// unjudged lists comparator paths on which the property text is silent
 	// for this value (returns outcome label, or "" when judged).
 	unjudged func(orig *T, path string) string
+	// classify optionally refines the key of a mismatch on path.
+	classify func(exp, got *T, path string) string
 	// applies says whether the value is in the domain of this codec.
 	applies func(v *T) bool
 }
